@@ -24,6 +24,13 @@ Definition kw_sub (a b : kwargs) : bool :=
 Definition kw_eqb (a b : kwargs) : bool :=
   Nat.eqb (List.length a) (List.length b) && kw_sub a b && kw_sub b a.
 
+(** type-strict variants ([True] is not [1]): used to compare what a body
+    received with what was specified *)
+Definition kw_sub_s (a b : kwargs) : bool :=
+  forallb (fun kv => match kw_get (fst kv) b with Some w => value_eqb (snd kv) w | None => false end) a.
+Definition kw_eqb_s (a b : kwargs) : bool :=
+  Nat.eqb (List.length a) (List.length b) && kw_sub_s a b && kw_sub_s b a.
+
 (** A task's parameters after the context: name and default, in order. *)
 Definition params := list (string * value).
 
